@@ -256,6 +256,54 @@ def run_readall(exe, cases, timeout=900):
     env = {"VERIF_TMP": vlib.scratch()}
     return vlib.run_exe(exe, path, timeout=timeout, env=env)
 
+def run_readall_sharded(exe, cases, shards=48, workers=14, timeout=900, single_timeout=240):
+    """Run the reader harness over the cases in parallel shards.  Returns (lines, failures):
+    lines[k] is the output line of case k or None; failures is a list of (k, rc, stderr) naming the
+    case a shard stopped at.  A shard that merely ran out of time is NOT a failure of the case it was
+    working on: that case is re-run alone with [single_timeout]; only a case that crashes, or that alone
+    exceeds the single-case budget, is reported."""
+    import concurrent.futures
+    n = len(cases)
+    lines = [None] * n
+    failures = []
+    if n == 0:
+        return lines, failures
+    per = max(1, (n + shards - 1) // shards)
+    chunks = [(a, min(n, a + per)) for a in range(0, n, per)]
+    env = {"VERIF_TMP": vlib.scratch()}
+    def one(ci):
+        a, b = chunks[ci]
+        fails = []
+        start = a
+        guard = 0
+        while start < b and guard < 6:
+            path = vlib.write_cases(cases[start:b], "readall-%d-%d.cases" % (ci, start))
+            rc, ls, err = vlib.run_exe(exe, path, timeout=timeout, env=env)
+            for j, l in enumerate(ls[:b - start]):
+                lines[start + j] = l
+            if rc == 0 and len(ls) >= b - start:
+                break
+            bad = start + len(ls)
+            if bad >= b:
+                break
+            guard += 1
+            if rc == 124:
+                # out of time: is it this case, or just the size of the shard?
+                p1 = vlib.write_cases([cases[bad]], "readall-%d-%d-single.cases" % (ci, bad))
+                rc1, l1, err1 = vlib.run_exe(exe, p1, timeout=single_timeout, env=env)
+                if rc1 == 0 and l1:
+                    lines[bad] = l1[0]
+                else:
+                    fails.append((bad, rc1, err1))
+            else:
+                fails.append((bad, rc, err))
+            start = bad + 1
+        return fails
+    with concurrent.futures.ThreadPoolExecutor(max_workers=workers) as ex:
+        for f in ex.map(one, range(len(chunks))):
+            failures += f
+    return lines, sorted(failures)
+
 def digest_ok(line):
     """parsed digest, or None"""
     try:
